@@ -167,7 +167,13 @@ class TU:
                 return v
         return None
 
-    def function(self, qualname, mangled=None, nparams=None):
+    def function(self, qualname, mangled=None, nparams=None, sig=None):
+        if sig:
+            # one instantiation of a template, chosen by a piece of its signature
+            c = [d for d in self.funcs.get(qualname, []) if sig in d.get('type', {}).get('qualType', '')]
+            if len(c) != 1:
+                raise ExtractionError(f'{qualname}: expected exactly one definition with "{sig}" in its signature in {self.relpath}, found {len(c)}')
+            return c[0]
         if mangled:
             d = self.mangled.get(mangled)
             if d is None:
